@@ -176,12 +176,18 @@ def make_lines(sched, real_thread_line, log):
         def start(self):
             me = self
             a = sched.spawn("loader", lambda: real_thread_line.run(me))
+            self._actor = a
             if self._callback:
                 def join_and_call():
                     sched.wait(lambda: a.done, 'join')
                     me._callback(me)
                 sched.spawn("loaderjoin", join_and_call)
             sched.wait(None, 'start')
-        def is_alive(self): return False
+        def is_alive(self):
+            a = getattr(self, '_actor', None)
+            return a is not None and not a.done
+        def join(self, timeout=None):
+            a = getattr(self, '_actor', None)
+            if a is not None: sched.wait(lambda: a.done, 'join loader')
 
     return SimProcessLine, SimThreadLine
